@@ -2,7 +2,7 @@
 """Assemble /verif/seeded/<id>/ from confirmed seeded changes (patch.diff, demo.py, notes.md, meta.json)."""
 import json, os, shutil, sys
 
-SRC = "/tmp/seeds"
+SRC = "/verif/seeded"
 DST = "/verif/seeded"
 # seed -> (property it was written against, what it needs to manifest, checks that report it, first reporting condition, status)
 TABLE = json.load(open("/verif/tools/seed_table.json"))
@@ -16,14 +16,15 @@ def main():
         dst = os.path.join(DST, sid)
         os.makedirs(dst, exist_ok=True)
         for f in ("patch.diff", "demo.py", "notes.md"):
-            if os.path.exists(os.path.join(src, f)):
+            if os.path.exists(os.path.join(src, f)) and os.path.abspath(src) != os.path.abspath(dst):
                 shutil.copy(os.path.join(src, f), os.path.join(dst, f))
         meta = {
             "id": sid,
             "breaks_property": row["property"],
             "needs_to_manifest": row["needs"],
             "confirmed": "applied with `git -C /repo apply`, full test suite 719 passed, demo.py exits 1 with the change and 0 without (tools/seedtest.py)",
-            "ran": row.get("ran", "python3 tools/seedtest.py /tmp/seeds/%s %s" % (sid, " ".join(row["caught_by"] or [row["property"]]))),
+            "last_sweep": row.get("confirmed", {}),
+            "ran": row.get("ran", "python3 tools/seedtest.py seeded/%s %s" % (sid, " ".join(row["caught_by"] or [row["property"]]))),
             "caught_by": row["caught_by"],
             "first_condition": row.get("first", ""),
             "history": row.get("history", ""),
